@@ -49,6 +49,7 @@ def cases_for(prop, tier):
             yield {'stack': 'move', 'vec': v}
         yield {'stack': 'move', 'vec': 'sw', 'as_list': True}
         yield {'stack': 'move', 'vec': 'sss', 'refill': True}
+        yield {'stack': 'move', 'vec': 'srs'}       # the destination refuses the class of the second instance
         yield {'stack': 'move', 'vec': 'ss', 'dest_fault': 'hang-after-last'}
         yield {'stack': 'move', 'vec': 's' if not thorough else 'sw', 'clients': 2}
         for v in (['', 's', 'sws'] + (['ss', 'sf', 'ssss'] if thorough else [])):
@@ -73,6 +74,7 @@ def cases_for(prop, tier):
             yield {'stack': 'commit', 'outcome': v}
         yield {'stack': 'echo-store', 'n': 2}
         yield {'stack': 'move', 'vec': 'sf'}
+        yield {'stack': 'move', 'vec': 'rs'}
         yield {'stack': 'move', 'vec': 's', 'dest_fault': 'hang-after-last'}      # answered even if the sub-association cannot be released
         yield {'stack': 'find', 'k': 2, 'style': 'fresh', 'maxlen': 16384, 'err': True, 'sop': FIND}
 
@@ -156,9 +158,10 @@ def make(case):
         elif kind == 'move':
             vec = case['vec']
             letters = 'AB'[:case.get('clients', 1)]
-            sets = {L: [dsgen.make(KINDS[i % 3], i, sop_class=CT, inst='1.2.9.%d.%d' % (j + 1, i)) for i in range(len(vec))]
+            # 'r' in the outcome vector: an instance of a class (MR) whose context the destination refuses
+            sets = {L: [dsgen.make(KINDS[i % 3], i, sop_class=MR if vec[i] == 'r' else CT, inst='1.2.9.%d.%d' % (j + 1, i)) for i in range(len(vec))]
                     for j, L in enumerate(letters)}
-            outcome = {str(d.SOPInstanceUID): OUT[vec[i]] for L in letters for i, d in enumerate(sets[L])}
+            outcome = {str(d.SOPInstanceUID): OUT.get(vec[i], 0) for L in letters for i, d in enumerate(sets[L])}
             last = {str(sets[L][-1].SOPInstanceUID) for L in letters if sets[L]}
 
             def dest_store(asce, ctx, msg):
@@ -194,7 +197,7 @@ def make(case):
                         return {'aet': 'DEST', 'address': 'dest', 'port': 104}, len(sets[L]), gen()
                     return {'aet': 'DEST', 'address': 'dest', 'port': 104}, len(sets[L]), (list(sets[L]) if case.get('as_list') else iter(sets[L]))
             qr = assoc.make_ae('QR', [IMPL], 16384, [sopclass.qr_move_scp], cls=MoveAE)
-            qr.add_scu(sopclass.storage_scu, [CT])
+            qr.add_scu(sopclass.storage_scu, [CT, MR])
             net.listen(('srv', 104), e3.serve_ae(qr))
             results['move'] = {}
             results['insts'] = {L: [(str(d.SOPInstanceUID), dsgen.enc(d, IMPL)) for d in sets[L]] for L in letters}
@@ -590,10 +593,10 @@ def judge(case, out):
             got = r['move'].get(L, [])
             exp = []
             for k in range(1, n + 1):
-                exp.append((0xFF00, n - k, k, vec[:k].count('f'), vec[:k].count('w'), mid))
+                exp.append((0xFF00, n - k, k, vec[:k].count('f') + vec[:k].count('r'), vec[:k].count('w'), mid))
             mine = {u for u, _ in r['insts'][L]}
             stores = [x for x in log if x[0] == 'dest-store' and x[1] in mine]
-            if [(u, d) for _, u, d in stores] != r['insts'][L]:
+            if [(u, d) for _, u, d in stores] != [x for i, x in enumerate(r['insts'][L]) if vec[i] != 'r']:
                 viol.append((sig + ':sub-operations', 'destination received %r, application supplied %r%s (%s)' % (
                     [u for _, u, _ in stores], [u for u, _ in r['insts'][L]], tag, where)))
             pend, tail = got[:-1], got[-1:]
